@@ -266,19 +266,27 @@ Theorem C01_source_function_combinators : forall (fs : list (fn R)) (g : fn R) p
   (NullFunction_call x = feval FNull x /\ NullFunction_deriv x = fderiv FNull x).
 Proof.
   intros fs g pl ph xl xh qs cs offs x.
-  pose proof (gen_sum fs x) as [S1 [S2 _]]. pose proof (gen_reflect g x) as [R1 [R2 _]]. pose proof (gen_innersum pl ph xl xh x) as [I1 [I2 _]].
-  pose proof (gen_x2d qs x) as [X1 [X2 _]]. pose proof (gen_poly2d cs x) as [P1 [P2 _]]. pose proof (gen_poly2doffset cs offs x) as [O1 [O2 _]].
-  pose proof (gen_null x) as [N1 [N2 _]]. repeat split; assumption.
+  pose proof (gen_sum fs x) as [S1 S2]. pose proof (gen_reflect g x) as [R1 R2]. pose proof (gen_innersum pl ph xl xh x) as [I1 I2].
+  pose proof (gen_x2d qs x) as [X1 X2]. pose proof (gen_poly2d cs x) as [P1 P2]. pose proof (gen_poly2doffset cs offs x) as [O1 O2].
+  pose proof (gen_null x) as [N1 N2]. repeat split; assumption.
 Qed.
 (* RangesFunction.__call__ / deriv regenerated over abstract operands: the i-th function on the i-th range of the flow, derivatives concatenated *)
 Theorem C01_source_ranges_function : forall (rs : list (nat * nat * fn R)) (x : list R),
   RangesFunction_call (ranges_of rs) (fobjs_of rs) x = feval (FRanges rs) x /\ RangesFunction_deriv (ranges_of rs) (fobjs_of rs) x = fderiv (FRanges rs) x.
 Proof. intros rs x. exact (gen_ranges rs x). Qed.
-(* ADevice.cost / deriv / hess regenerated from adevice.py over an abstract function object: f(s) + sum(s*p), f.deriv(s) + p, f.hess(s) ARE
+(* ADevice.cost / deriv regenerated from adevice.py over an abstract function object (hess: C14): f(s) + sum(s*p), f.deriv(s) + p ARE
    the leaf model of the device whose preference is the function AST node g, for every g *)
 Theorem C01_source_adevice : forall n bnd cb (g : fn R) ucs (s p : list R), let d := Build_leafdev n bnd cb (KA g ucs) in
-  ADevice_cost (fobj_of g) s p = leaf_cost d s p /\ ADevice_deriv (fobj_of g) s p = leaf_deriv d s p /\ ADevice_hess (fobj_of g) s p = leaf_hess d s.
+  ADevice_cost (fobj_of g) s p = leaf_cost d s p /\ ADevice_deriv (fobj_of g) s p = leaf_deriv d s p.
 Proof. intros n bnd cb g ucs s p. exact (gen_adevice n bnd cb g ucs s p). Qed.
+
+(* CDevice2.deriv regenerated from cdevice2.py: np.ones(len(self)) * object.deriv(s) + p, the object assembled from InnerSumFunction /
+   RangesFunction objects - IS the model marginal cost when the cumulative ranges cover the horizon (one gradient entry per slot; the
+   constructor checks contiguity and cover) *)
+Theorem C01_source_cdevice2_deriv : forall n pl ph (cbs : list (cbound R)) (s p : list R), length (cdev2_dpref pl ph cbs s) = n ->
+  CDevice2_deriv n pl ph cbs s p = cdev2_deriv pl ph cbs s p.
+Proof. intros n pl ph cbs s p. apply gen_cdevice2_deriv. Qed.
+
 
 
 
